@@ -550,6 +550,16 @@ class ProgGen:
             defs.append(f"{prefix}cta")
             for kv in (2, 3, ch.draw(3, "cta_k")):
                 sigs.append(FnSig(f"{prefix}cta", [("x", "int"), ("k", f"lit:{kv}")], "int", "ctarg"))
+            # comptime arguments of other kinds: several monomorphic instances of one
+            # definition pending at the same time (strings hash per interpreter run)
+            cty, cvals = ch.pick((("str", ('"alpha"', '"beta"', '"gamma"')), ("bool", ("True", "False")),
+                                  ("float", ("0.5", "1.5", "-0.0"))), "ctarg_kind")
+            src += ["@guppy", f"def {prefix}ctt(x: int, tag: {cty} @comptime) -> int:",
+                    "    result(\"t\", x)" if cty != "str" else "    result(tag, x)",
+                    f"    return {prefix}cta(x, 2) + 1", ""]
+            defs.append(f"{prefix}ctt")
+            for cv in cvals:
+                sigs.append(FnSig(f"{prefix}ctt", [("x", "int"), ("tag", f"lit:{cv}")], "int", "ctarg2"))
         if fams["decl"]:
             src += ["@guppy.declare", f"def {prefix}ext(x: int, y: bool) -> int: ...", ""]
             defs.append(f"{prefix}ext")
@@ -696,7 +706,7 @@ class ProgGen:
         # make sure every family is reachable from main
         env = {p: t for p, t in sig.params}
         for s in sigs:
-            if self.ch.draw(2, "use_" + s.kind) or s.kind in ("comptime",):
+            if self.ch.draw(2, "use_" + s.kind) or s.kind in ("comptime", "ctarg2"):
                 args = ", ".join(b.expr(env, t, 2) for _, t in s.params)
                 body.append(f"{s.name}({args})")
         hdr = f"def {sig.name}({', '.join(f'{p}: {t}' for p, t in sig.params)}) -> None:"
